@@ -92,7 +92,7 @@ def gen(rng, k):
             script.append(dict(t=rng.choice([100, 900, 50000]), s=0, op='add_timer', cid=800 + i, delta=rng.choice([150000, 400000, 700000, 1000000]), ret=True))
         script.sort(key=lambda e: e['t'])
     script.sort(key=lambda e: e['t'])
-    return dict(stacks=stacks, lat=[rng.choice([1, 500])], jit=[rng.choice([1, 400])], script=script, horizon=t + 6_500_000)
+    return dict(stacks=stacks, lat=[rng.choice([1, 500])], jit=[rng.choice([1, 400])], script=script, horizon=t + 6_500_000, reuse_buffers=rng.random() < 0.33)
 
 
 def submissions(sc, res):
